@@ -68,7 +68,11 @@ func c10Run(ctx *core.Ctx) {
 	ctx.Rule = "server: pre-STARTTLS histories {fresh, greeted, authenticated, MAIL, MAIL+RCPT, mid-BDAT} x plaintext injected behind the STARTTLS command {none, MAIL, MAIL+RCPT+DATA+body, garbage} x {same segment, following segment} x {SMTP, LMTP}, then probes inside TLS (MAIL before EHLO, EHLO, AUTH, RCPT/DATA without MAIL); client: NewClientStartTLS over the in-memory transport and DialStartTLS / SendMail / SendMailTLS over loopback TCP against scripted servers {no STARTTLS offered, 454, 220 then garbage, 220 with injected plaintext replies and capabilities, certificate not trusted, good}. Oracles: backend event log (bait addresses, Logout, NewSession TLS state), TLS record-framing monitor and plaintext-token scan on the raw client->server tap, capability view of the client after the upgrade. Non-trivial: every case; distinct by case."
 	ctx.Assumptions = []string{"the harness CA is installed as this process's system root store through SSL_CERT_FILE", "reply count after a failed TLS handshake is not judged"}
 	core.RunCases(ctx, func(emit func(c10Case)) {
-		for rep := 0; rep < 3; rep++ {
+		nrep := 3
+		if ctx.Thorough() {
+			nrep = 40
+		}
+		for rep := 0; rep < nrep; rep++ {
 			for _, pre := range []string{"fresh", "greeted", "authed", "mail", "rcpt", "bdat"} {
 				for _, inj := range []string{"", "MAIL", "ENVELOPE", "GARBAGE"} {
 					for _, same := range []bool{true, false} {
@@ -82,7 +86,11 @@ func c10Run(ctx *core.Ctx) {
 				}
 			}
 		}
-		for rep := 0; rep < 8; rep++ {
+		crep := 8
+		if ctx.Thorough() {
+			crep = 60
+		}
+		for rep := 0; rep < crep; rep++ {
 			for _, fk := range []string{"nostarttls", "454", "garbage", "injected", "good", "goodbare", "injectedbare", "helofallbackbare"} {
 				emit(c10Case{Kind: "cli", Fake: fk, API: "NewClientStartTLS", Pre: fmt.Sprint(rep)})
 			}
